@@ -187,6 +187,59 @@ def special_clause(cl, rng, n, replay):
                 return
 
 
+def degenerate_clause(cl, rng, n, replay):
+    """inputs at the edge of the estimators' domain: an accepted window whose curve is exactly 0 at one frequency (legal: amplitudes are >= 0) must not change
+    what is reported at the other frequencies; windows that agree exactly (one peak frequency for all, one amplitude at some frequency) have standard deviation 0
+    there, and the covariance diagonal is still the squared standard deviation"""
+    import warnings
+    import hvsrpy
+    for j in range(n):
+        naz = int(rng.integers(1, 4))
+        m = int(rng.integers(20, 36))
+        f = np.geomspace(0.2, 20, m)
+        if j % 2 == 0:
+            As = []
+            for a in range(naz):
+                k = int(rng.integers(3, 7))
+                As.append(np.array([1 + rng.uniform(1, 4) * np.exp(-(np.log(f / rng.uniform(0.8, 6)) / 0.3) ** 2) + 0.1 * np.abs(rng.normal(0, 1, m)) for _ in range(k)]))
+            az_z, w_z, c0 = int(rng.integers(0, naz)), 0, int(rng.integers(0, 2))
+            As[az_z][w_z, c0] = 0.0                  # the first or second frequency sample, far below every peak
+            h = hvsrpy.HvsrAzimuthal([hvsrpy.HvsrTraditional(f, A) for A in As], list(np.linspace(10, 150, naz)))
+            cl.case(("zero-sample", j, naz, c0))
+            keep = np.arange(m) != c0
+            with warnings.catch_warnings():
+                warnings.simplefilter("ignore")
+                for dist in ("lognormal", "normal"):
+                    e = expected(h, As, dist)
+                    got_m, got_s = h.mean_curve(dist), h.std_curve(dist)
+                    if not (close(got_m[keep], e["mc"][keep], 1e-9, 1e-12) and close(got_s[keep], e["sc"][keep], 1e-9, 1e-12)):
+                        cl.fail("hvsrpy.hvsr_azimuthal.HvsrAzimuthal.mean_curve", f"[{dist}] an accepted window with amplitude 0 at frequency sample {c0} changes the mean / standard-deviation "
+                                "curve at other frequencies (every accepted window keeps its weight at every frequency)", signature="az:zero-sample", dist=dist)
+                        return
+        else:
+            c = int(rng.integers(m // 3, 2 * m // 3))
+            c1 = 1
+            As = []
+            for a in range(naz):
+                k = int(rng.integers(3, 7))
+                A = np.array([1 + rng.uniform(1, 4) * np.exp(-(np.log(f / f[c]) / 0.3) ** 2) for _ in range(k)])       # every window peaks on sample c
+                A[:, c1] = 1.75                                                                                             # and they agree exactly at sample c1
+                As.append(A)
+            h = hvsrpy.HvsrAzimuthal([hvsrpy.HvsrTraditional(f, A) for A in As], list(np.linspace(10, 150, naz)))
+            if sum(len(A) for A in As) < 3:
+                continue
+            cl.case(("agreeing-windows", j, naz))
+            for dist in ("lognormal", "normal"):
+                sf, cov = h.std_fn_frequency(dist), h.cov_fn(dist)
+                sc = h.std_curve(dist)
+                ok = (np.isfinite(sf) and abs(sf) <= 1e-12 and np.isfinite(sc[c1]) and abs(sc[c1]) <= 1e-12 and close(cov[0, 0], sf ** 2, 1e-9, 1e-20)
+                      and close(h.mean_fn_frequency(dist), f[c], 1e-12))
+                if not ok:
+                    cl.fail("hvsrpy.statistics._nanstd_weighted", f"[{dist}] windows that agree exactly: std_fn_frequency = {sf} (expected 0), std_curve at the common sample = {sc[c1]} "
+                            f"(expected 0), covariance diagonal {cov[0, 0]}", signature="az:agreeing-windows", dist=dist)
+                    return
+
+
 def known_f9(cl, rng, n, replay):
     import hvsrpy
     from bounded import refproc as rp
@@ -207,6 +260,8 @@ CLAUSES = [
      "1-4 azimuths x 3-7 windows, 3 history steps (reject / reselect same size / move an accepted window between azimuths), 3 spellings",
      "hvsrpy.hvsr_azimuthal.HvsrAzimuthal", (40, 800), main_clause),
     ("cross-check:single azimuth == traditional; equal counts == pooled unweighted", "cross-check", "random objects", "hvsrpy.hvsr_azimuthal.HvsrAzimuthal", (15, 300), special_clause),
+    ("bounded:a zero sample in an accepted window leaves the other frequencies alone; exactly agreeing windows have standard deviation 0 (and cov diagonal = std^2)", "bounded",
+     "1-3 azimuths x 3-6 windows, 2 distributions", "hvsrpy.hvsr_azimuthal.HvsrAzimuthal", (16, 200), degenerate_clause),
     ("bounded:mask well-formedness under time-domain rejection (F-9 state, azimuthal)", "bounded", "one constructed history", "hvsrpy.window_rejection.sta_lta_window_rejection", (1, 1), known_f9),
 ]
 
